@@ -233,7 +233,7 @@ def fs_term(s):
 def scenario(id, **kw):
     sc = {"id": id, "layout": "flat", "with_import": True, "mutation": None, "args": ["build"], "fail": None, "plan": "",
           "keep": False, "hashfast": False, "prewarm": False, "force": False, "compile": False, "debug": False,
-          "leftover": None, "leftover_where": "top", "crash": None, "enospc": None, "envfault": None, "out": None, "wflag": None, "ref": None, "special": False}
+          "leftover": None, "leftover_where": "top", "crash": None, "enospc": None, "envfault": None, "out": None, "wflag": None, "must_succeed": False, "ref": None, "special": False}
     sc.update(kw)
     return sc
 
@@ -350,7 +350,14 @@ def build_scenarios(rng, gen, quick):
         for label, b in ([lv[0], lv[-2]] if quick else lv[:6] + lv[-5:]):
             A(scenario("left-%s@mfdir-ok/%s" % (label, where), layout="mfdir", leftover={"kind": "file", "b64": base64.b64encode(b).decode(), "label": label},
                        leftover_where=where, ref="mfdir-ok"))
-    A(scenario("left-prefix:0@both-ok/both", layout="both", args=["top"], leftover={"kind": "file", "b64": "", "label": "prefix:0"}, leftover_where="both", ref="both-ok"))
+    A(scenario("left-prefix:0@both-ok/top", layout="both", args=["top"], leftover={"kind": "file", "b64": "", "label": "prefix:0"}, leftover_where="top", ref="both-ok"))
+    # tagged magefiles in "." AND a magefiles/ directory holding a generated file (another mage may be running in there):
+    # the run works in ".", succeeds, and leaves magefiles/ byte-identical
+    for label, b in (("prefix:0", b""), ("generated", gen), ("foreign", b"package main // somebody else's\n")):
+        A(scenario("unchosen-magefiles-dir-keeps-%s" % label, layout="both", args=["top"], must_succeed=True,
+                   leftover={"kind": "file", "b64": base64.b64encode(b).decode(), "label": label}, leftover_where="mfdir"))
+    A(scenario("unchosen-magefiles-dir-keeps-both", layout="both", args=["top"], must_succeed=True,
+               leftover={"kind": "file", "b64": "", "label": "prefix:0"}, leftover_where="both"))
     A(scenario("left-prefix:0@named-ok/mfdir", layout="named", leftover={"kind": "file", "b64": "", "label": "prefix:0"}, leftover_where="mfdir", ref="named-ok"))
     # with -d magefiles the START directory is not the magefile directory: a file of that name there is the user's and stays
     A(scenario("userfile-in-start-dir@named-ok", layout="named", leftover={"kind": "file", "b64": base64.b64encode(b"package main // mine\n").decode(), "label": "user file"},
@@ -835,7 +842,8 @@ def invoke_case(sc, ob, faults, imports, tcode, gen_tok, partial_tok, lists, cra
 # ------------------------------------------------------------------------------------------------
 # the property sentence, directly
 def main_paths(sc):
-    return {"flat": [MAIN], "mfdir": [MAIN, "magefiles/" + MAIN], "both": [MAIN, "magefiles/" + MAIN],
+    # "both": "." has magefiles of its own and is used; magefiles/ is not, and since 62b109f not touched either
+    return {"flat": [MAIN], "mfdir": [MAIN, "magefiles/" + MAIN], "both": [MAIN],
             "named": ["magefiles/" + MAIN]}[sc["layout"]]   # with -d magefiles the start directory is not the magefile directory
 
 
@@ -891,6 +899,8 @@ def oracle_run(sc, ob, gen_hashes, ref_ob):
         pre = [e for e, s_ in list(zip(ob["log"], ob["seen"]))[:first_build] if s_ and (e in ("env GOCACHE", "list") or (e == "version" and not sc["debug"]))]
         if pre:
             bad.append("mage_output_file.go existed while `go %s` was running: generation has started before a step that can still fail without clean-up" % pre[0])
+    if sc.get("must_succeed") and ob["rc"] != 0:
+        bad.append("the run must succeed (what lies in a directory that is not used does not matter): exit %s %s" % (ob["rc"], ob["err"][-120:]))
     if ref_ob is not None:
         if ob["rc"] != ref_ob["rc"] or ob["out"] != ref_ob["out"]:
             bad.append("a leftover %s changed the result: exit %s stdout %r instead of exit %s stdout %r" % (
